@@ -1496,6 +1496,11 @@ func (e *Engine) VerifyFunc(key string) {
 			c.env[k] = v
 		}
 		exitPos := fn.Pos()
+		if normal && ct.NoReturn {
+			// noreturn: every normal exit must be unreachable
+			e.obligeKeep(p, "post", "noreturn", exitPos, False, "noreturn: the function must not return normally")
+			return
+		}
 		if normal {
 			bindResults(c.env, fn.Signature, res)
 			// cover
@@ -1540,6 +1545,10 @@ func (e *Engine) VerifyFunc(key string) {
 				}
 			}
 			if ct.MayPanic {
+				e.checkFrame(p, ms, entry, "panic", exitPos)
+				return
+			}
+			if ct.NoReturn {
 				e.checkFrame(p, ms, entry, "panic", exitPos)
 				return
 			}
